@@ -1,1 +1,76 @@
-fn main() { println!("hello"); }
+mod engines;
+mod evidence;
+mod explore;
+mod findings;
+mod model;
+mod par;
+mod probe;
+mod props_seq;
+mod report;
+mod sqldrv;
+
+fn lookup(engine: &str) -> Option<par::WorkerFn> {
+    match engine {
+        "seq" => Some(engines::seq::worker),
+        _ => None,
+    }
+}
+
+fn check(prop: &str, tier: &str) -> i32 {
+    unsafe { std::env::set_var("VERIF_TIER", tier) };
+    match prop {
+        "C03" => props_seq::c03(tier),
+        "C04" => props_seq::c04(tier),
+        _ => {
+            eprintln!("no check for {prop}");
+            2
+        }
+    }
+}
+
+fn replay(path: &str) -> i32 {
+    let text = std::fs::read_to_string(path).expect("read replay file");
+    let v: serde_json::Value = serde_json::from_str(&text).expect("parse replay file");
+    let engine = v["engine"].as_str().unwrap_or("");
+    let Some(f) = lookup(engine) else {
+        eprintln!("unknown engine {engine}");
+        return 2;
+    };
+    println!("replaying {} case of {} (engine {engine})", v["classification"], v["property"]);
+    if let Some(s) = v["script"].as_array() {
+        for l in s {
+            println!("  {}", l.as_str().unwrap_or(""));
+        }
+    }
+    let case = serde_json::json!({"hist": v["hist"], "case": v["case"]});
+    let r = f(&v["params"], &case);
+    println!("status: {}", r["status"]);
+    println!("{}", r["detail"].as_str().unwrap_or(""));
+    if r["status"] == "violation" {
+        println!("VIOLATION property={} replay={path}", v["property"].as_str().unwrap_or(""));
+        1
+    } else {
+        0
+    }
+}
+
+fn main() {
+    let args: Vec<String> = std::env::args().collect();
+    sqldrv::install_panic_counter();
+    let code = match args.get(1).map(|s| s.as_str()) {
+        Some("--worker") => {
+            let c = par::worker_main(&args[2..], lookup);
+            sqldrv::cleanup_scratch();
+            std::process::exit(c);
+        }
+        Some("probe") => probe::run(&args[2..]),
+        Some("check") => check(&args[2], args.get(3).map(|s| s.as_str()).unwrap_or("quick")),
+        Some("replay") => replay(&args[2]),
+        _ => {
+            eprintln!("usage: harness check <Cxx> <quick|thorough> | replay <file> | probe <script>");
+            2
+        }
+    };
+    sqldrv::cleanup_scratch();
+    std::process::exit(code);
+}
